@@ -850,6 +850,11 @@ def pinned_cases(base, linebuf):
             ("x-then-wcoll-dash", [], [("x", "^-")], "-", "malformed"),
             ("dash-caret-dash-joined", [], ["^-,w1,-^-"], None, "malformed")):
         add("stdin-twice:%s" % tag, base_disk, srcs, wargs, stdin=S2, env=env, stream=stream)
+    # ---- a -w word the parser refuses without a message (unbalanced bracket): an error since /repo d1c94df, wherever it
+    # stands and whatever else is named (model correspondence only)
+    for i, wargs in enumerate((["b,a[1"], ["a[1,b"], ["a[1"], ["b", "a[1"], ["^t/A,a[1"], ["a[1", "^t/A"], ["b,a]1"], ["a[1,-b"])):
+        add("unparsable-word:%d" % i, base_disk, [], wargs, stream="malformed")
+    add("unparsable-word:wcoll-not-consulted", base_disk, [], ["a[1"], env="t/W", stream="malformed")
     # ---- J. include names around the reader's path buffer (fq_path[PATHBUF], PATHBUF = PATH_MAX): explicit names
     # (`./`, absolute) of PATHBUF-2, PATHBUF-1 bytes exist and are read; a name of PATHBUF bytes or more CANNOT exist —
     # an error, although a file sits at the name cut to PATHBUF-1 bytes (F10-LONGNAME); bare names are looked up as
@@ -945,6 +950,14 @@ def long_rel(n, first="", last="f"):
     p = first + "/".join(parts)
     assert len(p) == n, (len(p), n)
     return p
+
+
+UNPARSED = ["?"]        # a -w word the hostlist parser refuses without a message (`a[1`): "error" (opt.c since /repo d1c94df:
+                        # errx "invalid host expression") or "dropped" (before: left out, exit 0) - probed
+
+
+def unparsable(e):
+    return e.count("[") != e.count("]")
 
 
 PATHBUF = 4096          # sizeof fq_path in wcoll_ctx_read_file = PATH_MAX (Opt/Wcoll.lean `PATHBUF`)
@@ -1269,6 +1282,15 @@ def judge(ctx, pdsh, cases, mode, linebuf):
                           (mf[6], r["nofile"], r["rc"], r["err"][-100:])))
         else:
             status, nwarn, created, exprs = mf[0], int(mf[1]), mf[2], unl(mf[3])
+            badword = status == "ok" and any(unparsable(e) for e in exprs)
+            if badword and UNPARSED[0] == "error":
+                # wcoll_arg_process checks hostlist_push (/repo d1c94df): the word is an ERROR, not a silently shorter list
+                if r["rc"] != 1 or r["nohosts"]:
+                    v.append(("disagreement", "unparsable word", "a -w word does not parse: expected errx, real rc=%s hosts=%r %s" %
+                              (r["rc"], (r["hosts"] or [])[:5], r["err"][-100:])))
+                continue
+            if badword:
+                exprs = [e for e in exprs if not unparsable(e)]     # the tree before d1c94df: left out without a word
             mhosts = target_hosts(exprs, unl(mf[4]), model_regex(mf[7]))
             if status == "starved":
                 v.append(("disagreement", "model ran out of fuel", ml[:100]))
@@ -1432,6 +1454,8 @@ def run(ctx):
                 TOPFD[0] = kf
             else:
                 break
+        q = subprocess.run([pdsh, "-Q", "-w", "b,a[1"], stdout=subprocess.PIPE, stderr=subprocess.PIPE)
+        UNPARSED[0] = "error" if q.returncode == 1 else "dropped"
         # F10-LONGNAME (open): an explicit include name of PATHBUF bytes or more — cut and read (as found) or refused?
         rel = long_rel(PATHBUF - 1, first="./")
         pl = {"stream": "probe", "disk": {"A": (True, "#include %sX\n" % rel), rel[2:]: (True, "cut1\n")}, "fs": {},
@@ -1490,6 +1514,7 @@ def run(ctx):
                         k += 1
         dist = {"streams": {}, "shapes": {}, "files": {}, "rc": {}, "reader": mode,
                 "explicit_include_name_of_%d_bytes_or_more" % PATHBUF: LONGNAME[0],
+                "unparsable_w_word": UNPARSED[0],
                 "read_wcoll_leaves_its_file_open(file sources that exhaust %d descriptors)" % NOFILE_DEFAULT: TOPFD[0], "max_line_ge_2047": 0,
                 "with_stdin": 0, "with_env": 0, "skips": 0, "branches": {b: 0 for b in BRANCHES}}
         distinct = set()
